@@ -124,6 +124,10 @@ class Angle:
 class ExactNP:
     pi = RP(1, 1)
 
+    def __getattr__(self, n):        # anything not modelled exactly runs natively (machine semantics)
+        import numpy
+        return getattr(numpy, n)
+
     def cos(self, a):
         assert a.kind == 'theta' and a.half
         return TP({(1, 0, 0): Fraction(1)})
@@ -522,6 +526,54 @@ def native_quadrature_replay(o=None):
     return worst > 1e-3, f'numerical quadrature (200 x 400 mid-points) of <sY_l1m|sY_l2m>, l <= 5: largest deviation from delta {worst:.2e} at (s,l1,l2,m)={where}'
 
 
+def factorial_obligation(R):
+    """maths.factorial against n! on its WHOLE finite domain: every n with a finite binary64 factorial (0..170), the
+    real function with the real scipy; beyond 170 the result must not be a finite wrong number.  (The exact execution
+    of sYlm replaces scipy by exact integers, so the helper's own machine arithmetic is pinned down here.)"""
+    import aurel.maths as M
+    R.under_contract(M.factorial)
+    t0 = time.time()
+    bad = []
+    for n in list(range(0, 171)):
+        try:
+            r = M.factorial(n)
+            ex = math.factorial(n)
+            fr = Fraction(float(r))
+            if abs(fr - ex) > Fraction(ex) * Fraction(4, 2 ** 52):
+                bad.append(f'factorial({n}) = {float(r)!r}, n! = {float(ex)!r}')
+        except Exception as e:
+            bad.append(f'factorial({n}) raised {type(e).__name__}: {e}')
+    for n in (171, 180, 250):
+        try:
+            r = float(M.factorial(n))
+            if math.isfinite(r):
+                bad.append(f'factorial({n}) = {r!r}: a finite value although n! exceeds binary64')
+        except OverflowError:
+            pass
+        except Exception as e:
+            bad.append(f'factorial({n}) raised {type(e).__name__}: {e}')
+
+    def replay(o):
+        import numpy as np
+        if not bad:
+            return False, 'factorial agrees with n! on 0..170'
+        # through the public harmonics: normalisation of a high mode against exact integers
+        l = m = None
+        for cand in range(2, 90):
+            if any(f'factorial({k})' in b for b in bad for k in (2 * cand, 2 * cand - 1, cand)):
+                l = m = cand
+                break
+        msg = bad[0]
+        if l is not None:
+            th, ph = 0.7, 0.3
+            got = M.sYlm(0, l, m, th, ph)
+            exact = (-1) ** m * math.sqrt((2 * l + 1) / (4 * math.pi) * float(Fraction(1, math.factorial(2 * l)))) * math.factorial(2 * l) / (2 ** l * math.factorial(l)) * math.sin(th) ** l
+            msg += f'; sYlm(0,{l},{m},0.7,0.3) = {got!r}, |Y_ll| from exact integers = {exact!r}'
+        return True, msg
+    R.ob('maths.factorial:== n! within 4 ulp for every n in 0..170 (the whole finite domain), not finite beyond', 'factorial',
+         'refuted' if bad else 'discharged', 'exhaustive-domain', time.time() - t0, '; '.join(bad[:3]) or '171 + 3 arguments', bad[:5] or None, replay=replay)
+
+
 def run(R):
     from engine.canary import run_canaries
     run_canaries(R, ('symx',))
@@ -529,6 +581,7 @@ def run(R):
     R.trust('scipy RegularGridInterpolator: exact at nodes, exact on multilinear fields for method="linear" (A4, exercised numerically)')
     R.trust('theta quadrature: the mid-point rule is second-order accurate for smooth integrands (observed, not proved)')
     L = 8 if R.tier == 'quick' else 12
+    factorial_obligation(R)
     harmonics_obligations(R, L)
     psi4lm_obligations(R)
     interpolate_obligations(R)
